@@ -530,11 +530,15 @@ def handle (line : String) : String :=
         let h := header raw l
         let m := if Cust.ndjson h l then 'T' else 'F'
         let d := if m == b.getD 0 '?' then "" else s!"DIFF det:NdJSON model={m}"
+        let mc := if Csv.sv h l 0x2C then 'T' else 'F'
+        let dc := if mc == b.getD 1 '?' then "" else s!"DIFF det:Csv model={mc}"
+        let mt := if Csv.sv h l 0x09 then 'T' else 'F'
+        let dt := if mt == b.getD 2 '?' then "" else s!"DIFF det:Tsv model={mt}"
         let leaf := ((chain.splitOn ",").headD "").splitOn "|" |>.headD ""
         let s1 := Spec.ndjsonSpec kind raw l (b.getD 0 'F' == 'T') (leaf == bhex (ofString "application/x-ndjson")) (e.getD 0 'n' == 'y')
         let s2 := Spec.svSpec kind "csv" raw l (b.getD 1 'F' == 'T') (leaf == bhex (ofString "text/csv")) (e.getD 1 'n' == 'y') 0x2C
         let s3 := Spec.svSpec kind "tsv" raw l (b.getD 2 'F' == 'T') (leaf == bhex (ofString "text/tab-separated-values")) (e.getD 2 'n' == 'y') 0x09
-        let all := [d, s1, s2, s3].filter (· != "")
+        let all := [d, dc, dt, s1, s2, s3].filter (· != "")
         if all.isEmpty then "OK" else String.intercalate " ; " all
       | _, _, _ => "BAD args"
     | ["dll", hx, lim] =>
